@@ -38,7 +38,7 @@ VARIANTS = {
     "asan": ["-fsanitize=address,undefined", "-fno-sanitize-recover=all"],
     "tsan": ["-fsanitize=thread"],
 }
-ADAPTER_TYPES = {"asan": list(range(9)), "tsan": [0, 1, 4, 5, 8]}
+ADAPTER_TYPES = {"asan": list(range(9)), "tsan": list(range(9))}
 
 SAN_ENV = {
     "ASAN_OPTIONS": "exitcode=77:detect_leaks=0:abort_on_error=0:allocator_may_return_null=1:detect_stack_use_after_return=1",
@@ -51,6 +51,9 @@ SAN_ENV = {
 DEFAULT = {"variant": "asan", "adapters": True, "quick": {"shards": 8, "n": 1500, "scale": 20, "arg": 0},
            "thorough": {"shards": 16, "n": 12000, "scale": 30, "arg": 0}, "fuzz_s": 0}
 CONFIG = {
+    "C10": {"variants": ["asan", "tsan"],
+            "quick": {"shards": 4, "n": 150, "scale": 20, "arg": 12, "max_size": 100},
+            "thorough": {"shards": 6, "n": 3000, "scale": 30, "arg": 20, "max_size": 100}},
     "C11": {"adapters": False, "variants": ["asan", "tsan"],
             "quick": {"shards": 4, "n": 250, "scale": 2, "arg": 0, "max_size": 60},
             "thorough": {"shards": 6, "n": 3000, "scale": 2, "arg": 0, "max_size": 80}},
